@@ -414,4 +414,14 @@ def c13_i(ctx: Ctx):
     return swapped_arguments(ctx, "C13-i", ['signac.sync']) + pure_logging(ctx, "C13-i", ['signac.sync'])
 
 
-RULES = [c13_a, c13_b, c13_c, c13_d, c13_e, c13_f, c13_g, c13_h, c13_i]
+@rule("C13-j")
+def c13_j(ctx: Ctx):
+    """File strategies decide per file (from C14-e FileSync.update and C14-h FileSync.Ask)."""
+    from .c14 import c14_h, c14_e
+    res = c14_h(ctx) + [r for r in c14_e(ctx) if "FileSync" in (r.function or "")]
+    for r in res:
+        r.rule = "C13-j"
+    return res
+
+
+RULES = [c13_a, c13_b, c13_c, c13_d, c13_e, c13_f, c13_g, c13_h, c13_i, c13_j]
